@@ -205,17 +205,17 @@ func loadedField(v ssa.Value) (*types.Named, string, ssa.Value, bool) {
 	v = stripConv(v)
 	if u, ok := v.(*ssa.UnOp); ok && u.Op == token.MUL {
 		if n, f, base := FieldOf(u.X); n != nil {
-			return n, f, base, false
+			return n, f, stripConv(base), false
 		}
 		if ia, ok := u.X.(*ssa.IndexAddr); ok {
 			if n, f, base := fieldLoad(ia.X); n != nil {
-				return n, f, base, true
+				return n, f, stripConv(base), true
 			}
 		}
 	}
 	if ix, ok := v.(*ssa.Index); ok {
 		if n, f, base := fieldLoad(ix.X); n != nil {
-			return n, f, base, true
+			return n, f, stripConv(base), true
 		}
 	}
 	return nil, "", nil, false
